@@ -793,7 +793,8 @@ fn gen_amount(rng: &mut Rng, c: &str) -> String {
     let s = gen_dec(rng);
     if s.starts_with('-') && rng.chance(9, 10) {
         // balances are non-negative in the engine; keep a few negative ones for the pure functions
-        return s[1..].to_string();
+        let v = BigInt::from_str(&s[1..]).unwrap();
+        return if v > max { max.to_string() } else { v.to_string() };
     }
     s
 }
